@@ -224,7 +224,10 @@ Fixpoint run (e : ex) (o : obj) : pyres :=
       pbind (run a o) (fun l =>
       if is_exp l then POk VExp
       else if is_none l then POk VNone
-      else POk (VBool (if neg then negb (py_in l vs) else py_in l vs)))
+      (* since e2dd2ce: True if a in b else None if None in b else False  (NOT IN: False / None / True) *)
+      else if py_in l vs then POk (VBool (negb neg))
+      else if existsb (fun v => match v with SNull => true | _ => false end) vs then POk VNone
+      else POk (VBool neg))
   | EAnd es =>                                                  (* visit_and_clauselist_op *)
       (fix go (l : list ex) (has_null : bool) : pyres :=
          match l with
@@ -364,29 +367,33 @@ Definition to_attr (v : pyv) : attr :=
    set: any order).  Value expressions that raise UnevaluatableError are not evaluated: the attribute is
    expired instead. *)
 Inductive ores := OOk (o : obj) | ORaise (e : pyexn).
-Fixpoint apply_sets (sc : schema) (sets : list (nat * ex)) (o : obj) : ores :=
+(* since c4d3d0a: every SET expression is evaluated against the object as it was before the statement
+   ("dict_.update([(key, value_evaluators[key](obj)) for key in to_evaluate if key in dict_])"), then the
+   values are assigned; an exception during the evaluation leaves the object untouched *)
+Inductive eres' := EvOk (l : list (nat * attr)) | EvRaise (e : pyexn).
+Fixpoint eval_sets (sc : schema) (sets : list (nat * ex)) (o : obj) : eres' :=
   match sets with
-  | [] => OOk o
+  | [] => EvOk []
   | (c, v) :: rest =>
       if check sc v then
         match o c with
-        | Loaded _ =>                       (* "if key in dict_": only attributes that are present *)
-            match run v o with             (* evaluated on the object as already modified *)
-            | POk x => apply_sets sc rest (set_attr o c (to_attr x))
-            | PRaise e => ORaise e
-            end
-        | Marker =>
+        | Expired => eval_sets sc rest o           (* "if key in dict_": only attributes that are present *)
+        | _ =>
             match run v o with
-            | POk x => apply_sets sc rest (set_attr o c (to_attr x))
-            | PRaise e => ORaise e
+            | POk x => match eval_sets sc rest o with EvOk l => EvOk ((c, to_attr x) :: l) | r => r end
+            | PRaise e => EvRaise e
             end
-        | Expired => apply_sets sc rest o
         end
-      else
-        match apply_sets sc rest o with     (* expired afterwards (to_expire) *)
-        | OOk o' => OOk (set_attr o' c Expired)
-        | r => r
-        end
+      else eval_sets sc rest o
+  end.
+Definition assign (o : obj) (l : list (nat * attr)) : obj := fold_left (fun o' ca => set_attr o' (fst ca) (snd ca)) l o.
+(* value expressions that raise UnevaluatableError are not evaluated: the attribute is expired (to_expire) *)
+Definition expire_unevaluatable (sc : schema) (sets : list (nat * ex)) (o : obj) : obj :=
+  fold_left (fun o' cv => if check sc (snd cv) then o' else set_attr o' (fst cv) Expired) sets o.
+Definition apply_sets (sc : schema) (sets : list (nat * ex)) (o : obj) : ores :=
+  match eval_sets sc sets o with
+  | EvOk l => OOk (expire_unevaluatable sc sets (assign o l))
+  | EvRaise e => ORaise e
   end.
 
 Definition update_obj (sc : schema) (crit : ex) (sets : list (nat * ex)) (o : obj) : ores :=
@@ -497,7 +504,7 @@ Definition has_null (vs : list sv) : bool := existsb (fun v => match v with SNul
 Definition in_safe (a : sv) (vs : list sv) : bool :=
   match a with
   | SNull => negb (is_nil vs)                        (* NULL IN () is FALSE in SQL, None in Python *)
-  | _ => existsb (sv_eqb a) vs || negb (has_null vs)  (* not found and a NULL in the list: UNKNOWN vs False *)
+  | _ => true          (* (not found + NULL in the list: UNKNOWN in both worlds since e2dd2ce) *)
   end.
 
 Fixpoint guard (e : ex) (r : row) : bool :=
@@ -515,18 +522,7 @@ Fixpoint guard (e : ex) (r : row) : bool :=
   | _ => true
   end.
 
-(* SET clauses: each target once, typed like its column, guarded, and no right-hand side reads a target *)
-Fixpoint reads (e : ex) (c : nat) : bool :=
-  match e with
-  | ECol c' => Nat.eqb c c'
-  | EBin _ a b => reads a c || reads b c
-  | EIn _ a _ => reads a c
-  | EAnd es | EOr es => (fix any (l : list ex) : bool := match l with [] => false | x :: t => reads x c || any t end) es
-  | ENot e1 | EGroup e1 => reads e1 c
-  | _ => false
-  end.
-Definition sets_independent (sets : list (nat * ex)) : bool :=
-  forallb (fun cv => forallb (fun cv' => Nat.eqb (fst cv) (fst cv') || negb (reads (snd cv) (fst cv'))) sets) sets.
+(* SET clauses: each target once, typed like its column, guarded *)
 Fixpoint targets_distinct (sets : list (nat * ex)) : bool :=
   match sets with
   | [] => true
